@@ -70,6 +70,17 @@ def raised_in_repo(e: BaseException) -> bool:
     return False
 
 
+def interface_broke(e: BaseException) -> bool:
+    """The stream itself stumbled over the implementation's interface: a registry key, attribute, module or call signature the
+    stream uses (and that exists on the unchanged tree, where every stream runs to the end) is gone or has changed.  That is a
+    tie that can no longer be established — a broken correspondence — not a problem of the machine.  Resource and driver
+    problems (OSError, MemoryError, the model driver, sub-process failures) stay infrastructure errors."""
+    import subprocess
+    if isinstance(e, (OSError, MemoryError, common.DriverError, subprocess.SubprocessError, KeyboardInterrupt)):
+        return False
+    return isinstance(e, (KeyError, AttributeError, ImportError, TypeError, IndexError, ValueError, AssertionError, NameError))
+
+
 class Watchdog:
     """A correspondence stream that neither finishes nor runs out of its own budget: the implementation hangs or eats memory
     on inputs the unchanged tree handles within the stream's budget.  That is a correspondence that no longer checks — reported
@@ -184,7 +195,7 @@ def main() -> int:
         except common.DriverError as e:
             infra_errors.append(f"{modname}: model driver: {e}")
         except Exception as e:
-            if raised_in_repo(e):
+            if raised_in_repo(e) or interface_broke(e):
                 # the implementation itself raised where the stream (written against the unchanged tree) expects it to work:
                 # the correspondence does not check any more — not an infrastructure problem
                 crashes.append({"what": f"the implementation raised {type(e).__name__} inside stream {modname}/{arg}: {e}",
@@ -245,7 +256,7 @@ def main() -> int:
                     (known_hits if k else fresh).append((v, k))
                 searched.append(modname)
             except Exception as e:
-                if raised_in_repo(e):
+                if raised_in_repo(e) or interface_broke(e):
                     searched.append(f"{modname} (search stopped: the implementation raised {type(e).__name__}: {str(e)[:200]})")
                 else:
                     infra_errors.append(f"search {modname}: {type(e).__name__}: {e}")
